@@ -138,7 +138,25 @@ def make_ground (spec0):
             g ['taper'] = [int (rng.choice ([1, 2, 3])), None, None]
         geo.append (g)
     geo.append (gen.wire (2, [5e3, 0, 5.0], [5e3 + 1, 0, 5.0], 1e-3, tag = nobj + 1))
-    return dict (f = 7.0, geo = geo, tr = [], sc = [], media = [[0, 0, 0]], src = [dict (p = [1, nobj + 1], v = [1, 0])], loads = [], ground_ends = True)
+    tr = []
+    if rng.random () < 0.4:
+        # an arc that touches the plane: half loop on both feet, quarter arc on one foot, circle lifted by its radius
+        # (its lowest segment end on the plane), turned about the vertical axis and shifted
+        Ra   = float (10 ** rng.uniform (-0.3, 1.0))
+        kind = str (rng.choice (['half', 'quarter', 'circle']))
+        na   = int (rng.choice ([4, 8, 12, 16, 20]))
+        if kind == 'half':
+            a1, a2 = (0.0, 180.0) if rng.random () < 0.5 else (180.0, 0.0)
+        elif kind == 'quarter':
+            a1, a2 = [(0.0, 90.0), (90.0, 0.0), (180.0, 90.0), (20.0, 180.0)] [int (rng.integers (0, 4))]
+        else:
+            a1, a2 = (0.0, 360.0) if rng.random () < 0.6 else (-90.0, 270.0)
+        geo.append (dict (k = 'a', n = na, radius = Ra, a1 = a1, a2 = a2, r = 1e-3 * Ra, tag = nobj + 2))
+        if kind == 'circle':
+            tr.append (['translate', 1.0, [0.0, 0.0, Ra], nobj + 2])
+        tr.append (['rotate', 2.0, [0.0, 0.0, float (np.round (rng.uniform (-180, 180), 1))], nobj + 2])
+        tr.append (['translate', 3.0, [float (np.round (rng.uniform (-30, 30), 2)) - 200.0, float (np.round (rng.uniform (-30, 30), 2)), 0.0], nobj + 2])
+    return dict (f = 7.0, geo = geo, tr = tr, sc = [], media = [[0, 0, 0]], src = [dict (p = [1, nobj + 1], v = [1, 0])], loads = [], ground_ends = True)
 # end def make_ground
 
 def lengths (segs):
@@ -202,7 +220,7 @@ def check (spec0):
         snap0 = 1e-3 * min (min (lengths (x.segments)) for x in m.geo)
         for g in spec ['geo']:
             for e in ('p1', 'p2'):
-                if 0.9 * snap0 <= abs (g [e][2]) <= 1.1 * snap0:
+                if g ['k'] == 'w' and 0.9 * snap0 <= abs (g [e][2]) <= 1.1 * snap0:
                     return dict (status = 'discard', reason = 'end within 10 % of the ground distance')
     viol = []
     mon  = {}
